@@ -132,6 +132,118 @@ func (p *Prog) extraObligations(o checkOpts) (obs []*Obligation, notes []string,
 		obs = append(obs, ob)
 		notes = append(notes, desc)
 	}
+	// removal characterisations: {s : !re_invalid.Match(re_str.ReplaceAllString(s, ""))} == Acc
+	for _, r := range p.spec.Raw["removal"] {
+		text := r.Text
+		var serves []string
+		if k := strings.Index(text, " serves "); k >= 0 {
+			serves = strings.Fields(text[k+8:])
+			text = text[:k]
+		}
+		if !servesProp(serves, o.id) {
+			continue
+		}
+		f := strings.Fields(text)
+		if len(f) != 3 {
+			errs = append(errs, fmt.Sprintf("%s:%d: bad removal directive", r.File, r.Line))
+			continue
+		}
+		strPat, err1 := p.codeRegexPattern(f[0])
+		invPat, err2 := p.codeRegexPattern(f[1])
+		if err1 != nil || err2 != nil {
+			errs = append(errs, fmt.Sprintf("%s:%d: removal: %v %v", r.File, r.Line, err1, err2))
+			continue
+		}
+		p.registerCodeRegex("re_"+f[0], strPat)
+		p.registerCodeRegex("re_"+f[1], invPat)
+		le, err := p.lemmaEnv([]ast.Expr{ast.NewIdent("re_" + f[0]), ast.NewIdent("re_" + f[1]), ast.NewIdent(f[2])})
+		if err != nil {
+			errs = append(errs, err.Error())
+			continue
+		}
+		acc, err := le.dfa(ast.NewIdent(f[2]))
+		if err != nil {
+			errs = append(errs, err.Error())
+			continue
+		}
+		reStr, e1 := regexp.Compile(strPat)
+		reInv, e2 := regexp.Compile(invPat)
+		if e1 != nil || e2 != nil {
+			errs = append(errs, "removal: pattern does not compile")
+			continue
+		}
+		var reps []string
+		for c, rr := range le.al.reps {
+			if c != le.al.surr {
+				reps = append(reps, string(rr))
+			}
+		}
+		checked, bad := 0, ""
+		var rec func(prefix string, q int, d int)
+		rec = func(prefix string, q int, d int) {
+			if bad != "" {
+				return
+			}
+			checked++
+			real := !reInv.MatchString(reStr.ReplaceAllString(prefix, ""))
+			if real != acc.acc[q] {
+				bad = prefix
+				return
+			}
+			if d == 5 {
+				return
+			}
+			for _, rp := range reps {
+				nq := q
+				for _, ru := range rp {
+					nq = int(acc.delta[nq][le.al.classOf(ru)])
+				}
+				rec(prefix+rp, nq, d+1)
+			}
+		}
+		rec("", acc.init, 0)
+		desc := fmt.Sprintf("BOUNDED stand-in: for every tested s, !%s.Match(%s.ReplaceAllString(s, \"\")) iff s is in %s (%d strings: all of length <= 5 over %d class representatives)", f[1], f[0], f[2], checked, len(reps))
+		obs = append(obs, preSolved("bounded.removal."+f[0], "bounded", fmt.Sprintf("%s:%d", shortSpec(r.File), r.Line), desc, bad == "", fmt.Sprintf("counterexample: %q", bad), serves))
+		notes = append(notes, desc)
+	}
+	// bounded stand-ins executed on the real code through the replay harness
+	for _, r := range p.spec.Raw["harness"] {
+		text := r.Text
+		var serves []string
+		if k := strings.Index(text, " serves "); k >= 0 {
+			serves = strings.Fields(text[k+8:])
+			text = text[:k]
+		}
+		if !servesProp(serves, o.id) {
+			continue
+		}
+		// harness NAME PKG KIND key=value... : DESCRIPTION
+		desc := ""
+		if k := strings.Index(text, " : "); k >= 0 {
+			desc = strings.TrimSpace(text[k+3:])
+			text = text[:k]
+		}
+		f := strings.Fields(text)
+		if len(f) < 3 {
+			errs = append(errs, fmt.Sprintf("%s:%d: bad harness directive", r.File, r.Line))
+			continue
+		}
+		args := map[string]string{}
+		for _, kv := range f[3:] {
+			if k := strings.Index(kv, "="); k > 0 {
+				args[kv[:k]] = kv[k+1:]
+			}
+		}
+		rs, err := p.runHarness(o, f[1], []replayJob{{ID: f[0], Kind: f[2], Args: args}})
+		ok, detail := false, ""
+		if err != nil {
+			detail = err.Error()
+		} else if len(rs) == 1 {
+			ok, detail = rs[0].OK, rs[0].Detail
+		}
+		obs = append(obs, preSolved("bounded.harness."+f[0], "bounded", fmt.Sprintf("%s:%d", shortSpec(r.File), r.Line), "BOUNDED stand-in (real code, exhaustive enumeration): "+desc+" ["+detail+"]", ok, detail, serves))
+		notes = append(notes, "bounded harness "+f[0]+": "+desc+" ["+detail+"]")
+	}
 	// stand-alone SMT lemmas over spec functions
 	for _, r := range p.spec.Raw["smtlemma"] {
 		text := r.Text
